@@ -293,7 +293,8 @@ def _keys_handed_out(chk, src):
         chk.fail("header-kinds-agree", fap.qname, f"looking a stored point up with approx and storing under the returned key raises {e}", where=fap.where,
                  instance="approx")
         return
-    heads = {p_: t for p_, t in fs.files.items() if p_.startswith("/work/operators/") and isinstance(t, tuple) and t[0] == "yaml"}
+    opdir = eko.attrs["operators"].attrs["path"]
+    heads = {p_: t for p_, t in fs.files.items() if p_.startswith(str(opdir) + "/") and isinstance(t, tuple) and t[0] == "yaml"}
     chk.need(len(heads) == 2, f"expected two operator headers on the model file system, found {sorted(heads)}")
     bad = {p_: t[1] for p_, t in heads.items() if not (isinstance(t[1], dict) and isinstance(t[1].get("nf"), int) and not isinstance(t[1].get("nf"), bool))}
     chk.decide(not bad and isinstance(got[1], int) and not isinstance(got[1], bool), "header-kinds-agree", fap.qname,
